@@ -17,9 +17,28 @@ import (
 )
 
 func checkInternal(t *rapid.T, s *secp256k1.Scalar) {
+	// see c01: a non-reduced internal value is only a violation once an observer goes wrong
 	raw := ref.FromLimbs(s.VerifRawLimbs())
-	if raw.Cmp(N) >= 0 {
-		t.Fatalf("internal representation not reduced: %x", raw)
+	if raw.Cmp(N) < 0 {
+		return
+	}
+	stat.Note("ops", "a non-reduced internal representation was observed; observers were cross-checked")
+	b := s.Bytes()
+	v := ref.Int(b)
+	if v.Cmp(N) >= 0 {
+		t.Fatalf("internal representation %x not reduced and Bytes() = %x is not canonical", raw, b)
+	}
+	fresh := lib.Sc(v)
+	var wz, wh uint64
+	if v.Sign() == 0 {
+		wz = 1
+	}
+	if v.Cmp(ref.HalfN) > 0 {
+		wh = 1
+	}
+	if s.Equal(fresh) != 1 || fresh.Equal(s) != 1 || s.IsZero() != wz || s.IsGreaterThanHalfN() != wh {
+		t.Fatalf("internal representation not reduced (%x) and the observers disagree with the value %x: Equal(fresh)=%d/%d IsZero=%d IsGreaterThanHalfN=%d",
+			raw, v, s.Equal(fresh), fresh.Equal(s), s.IsZero(), s.IsGreaterThanHalfN())
 	}
 }
 
